@@ -26,6 +26,64 @@ def chunk_facts(buf, total):
     return out, rf
 
 
+def tool_runs(ck, rnd, tier, bd, wd, trace, owner, nrun0):
+    """the zck tool with a split string: its chunking must depend on the content only, not on how read(2) cuts the
+    input into blocks (the shim caps the tool's reads), and it is local (the same records behind a longer first line)"""
+    import subprocess
+    zck = os.path.join(bd, "zck")
+    sp = b"<text:"
+    # records separated by the split string, with occurrences starting 1..len(sp)-1 bytes before the 32 KiB block edges
+    def records():
+        out = bytearray()
+        k = 0
+        while len(out) < 140000:
+            out += sp + corpus.text(rnd2, 200 + (k * 37) % 900).replace(sp, b"_" * len(sp)); k += 1
+        for edge in (32768, 65536, 98304):
+            for back in (3, 1, 5):
+                pos = edge - back
+                if pos + len(sp) < len(out):
+                    out[pos:pos + len(sp)] = sp
+        return bytes(out)
+    idx = nrun0
+    firsts = {}
+    rnd2 = random.Random(common.seed() + 16)
+    D0 = records()
+    for shift in (0, 15):
+        D = b"#" * shift + D0           # the same records, every block edge falling elsewhere in them
+        cname = "records+%d" % shift
+        for args in (["-m", "-s", sp.decode()], ["-s", sp.decode()], ["-m", "-s", sp.decode(), "--compression-format", "none"]):
+            for cap in ((0, 10000, 7) if tier == "quick" else (0, 10000, 32767, 4096, 7, 1)):
+                d = os.path.join(wd, "tool-%s-%d-%d" % (cname, len(args), cap)); os.makedirs(d, exist_ok=True)
+                open(os.path.join(d, "input.bin"), "wb").write(D)
+                env = dict(os.environ)
+                if cap: env.update({"ZV_ROLES": "in=input.bin", "ZV_CAP_in": str(cap)})
+                try:
+                    p = subprocess.run([zck] + args + ["-o", "out.zck", "input.bin"], cwd=d, env=env, stdout=subprocess.DEVNULL, stderr=subprocess.DEVNULL, timeout=300)
+                except subprocess.TimeoutExpired:
+                    trace.append({"op": "Hang", "tool": "zck"}); owner.append("tool"); continue
+                outp = os.path.join(d, "out.zck")
+                buf = open(outp, "rb").read() if os.path.exists(outp) else b""
+                cf = chunk_facts(buf, len(D)) if p.returncode == 0 else None
+                if cf is None or cf[1].content != D:
+                    trace.append({"op": "Crash", "why": "zck run failed or output does not decode to the input (see C01)", "args": args, "cap": cap}); owner.append("tool"); continue
+                cfgname = "tool " + " ".join(args)
+                trace.append({"op": "run", "cfg": cfgname, "content": cname, "seg": "reads capped at %d" % cap if cap else "32 KiB reads", "file": hashlib.sha256(buf).hexdigest()[:24], "chunks": cf[0], "len": len(D)})
+                owner.append("tool"); idx += 1
+                ck.case(("tool", cname, tuple(args), cap))
+                if cap == 0:
+                    firsts[(cfgname, shift)] = idx
+                    if "-m" in args:      # manual mode: a chunk ends only directly in front of an occurrence of the split string
+                        got = [c["end"] for c in cf[0]][:-1]          # (the scanner may overlook an occurrence that follows a broken
+                        off = [g for g in got if D[g:g + len(sp)] != sp]   #  partial match: that is still a function of the content)
+                        if off:
+                            trace.append({"op": "Crash", "why": "manual split: a chunk ends where no split string starts", "at": off[:3], "args": args}); owner.append("tool")
+    for (cfgname, shift), a in firsts.items():
+        if shift == 0 and (cfgname, 15) in firsts:
+            trace.append({"op": "pair", "a": a, "b": firsts[(cfgname, 15)], "p": 0, "s": len(D0), "edit": "15 bytes in front of the first record (%s)" % cfgname}); owner.append("tool")
+            ck.case(("toolpair", cfgname))
+    return idx
+
+
 def run(tier):
     ck = Check("C16", tier)
     rnd = random.Random(common.seed())
@@ -138,6 +196,7 @@ def run(tier):
                 s += 1
             trace.append({"op": "pair", "a": a, "b": b, "p": p, "s": s, "edit": cname}); owner.append("pair-%s-%d" % (cname, ci))
             ck.case(("pair", cname, ci))
+    tool_runs(ck, rnd, tier, os.path.join(common.BUILD, "plain"), wd, trace, owner, len([t for t in trace if t["op"] == "run"]))
     ck.extra["runs"] = len(runs); ck.extra["failed_runs"] = bad_runs
     crafted = [t for t in trace if t["op"] == "run" and t["content"].startswith("min+")]
     # does the placement model (writegen.simulate_cuts) agree with the real chunker on the crafted contents?  (informative:
